@@ -49,6 +49,7 @@ pub proof fn lemma_step(sunk0: Seq<u8>, done: Seq<u8>, chunk: Seq<u8>, rest: Seq
         forall|new: Seq<u8>| #[trigger] delivered_prefix(sunk0 + done, new, chunk) ==> delivered_prefix(sunk0, new, canon),
         (sunk0 + done) + chunk == sunk0 + (done + chunk),
 {
+    reveal(delivered_prefix);
     assert forall|new: Seq<u8>| #[trigger] delivered_prefix(sunk0 + done, new, chunk) implies delivered_prefix(sunk0, new, canon) by {
         let k = new.len() - (sunk0 + done).len();
         assert(canon.subrange(0, done.len() + k) =~= done + chunk.subrange(0, k));
@@ -63,6 +64,7 @@ pub proof fn lemma_pad_step(sunk0: Seq<u8>, done: Seq<u8>, pad: int, rest: Seq<u
         forall|new: Seq<u8>, d: int| 0 <= d <= pad && #[trigger] ext_by_zeros(sunk0 + done, new, d) ==> delivered_prefix(sunk0, new, canon),
         forall|new: Seq<u8>| #[trigger] ext_by_zeros(sunk0 + done, new, pad) ==> new == sunk0 + (done + zeros(pad)),
 {
+    reveal(delivered_prefix); reveal(ext_by_zeros);
     assert forall|new: Seq<u8>, d: int| 0 <= d <= pad && #[trigger] ext_by_zeros(sunk0 + done, new, d) implies delivered_prefix(sunk0, new, canon) by {
         assert(canon.subrange(0, done.len() + d) =~= done + zeros(d));
         assert(new =~= sunk0 + canon.subrange(0, new.len() - sunk0.len()));
@@ -94,6 +96,7 @@ pub proof fn lemma_track_write(sunk0: Seq<u8>, done: Seq<u8>, chunk: Seq<u8>, ca
         forall|new: Seq<u8>| #[trigger] delivered_prefix(sunk0 + done, new, chunk) ==> delivered_prefix(sunk0, new, canon),
         (sunk0 + done) + chunk == sunk0 + (done + chunk),
 {
+    reveal(is_prefix_of);
     let rest = canon.subrange((done + chunk).len() as int, canon.len() as int);
     assert(canon =~= done + chunk + rest);
     lemma_step(sunk0, done, chunk, rest, canon);
@@ -104,6 +107,7 @@ pub proof fn lemma_track_pad(sunk0: Seq<u8>, done: Seq<u8>, pad: int, canon: Seq
         forall|new: Seq<u8>, d: int| 0 <= d <= pad && #[trigger] ext_by_zeros(sunk0 + done, new, d) ==> delivered_prefix(sunk0, new, canon),
         forall|new: Seq<u8>| #[trigger] ext_by_zeros(sunk0 + done, new, pad) ==> new == sunk0 + (done + zeros(pad)),
 {
+    reveal(is_prefix_of);
     let rest = canon.subrange((done + zeros(pad)).len() as int, canon.len() as int);
     assert(canon =~= done + zeros(pad) + rest);
     lemma_pad_step(sunk0, done, pad, rest, canon);
@@ -111,17 +115,20 @@ pub proof fn lemma_track_pad(sunk0: Seq<u8>, done: Seq<u8>, pad: int, canon: Seq
 
 pub proof fn lemma_prefix_of_concat(a: Seq<u8>, b: Seq<u8>)
     ensures is_prefix_of(a, a + b),
-{ assert((a + b).subrange(0, a.len() as int) =~= a); }
+{ reveal(is_prefix_of); assert((a + b).subrange(0, a.len() as int) =~= a); }
 pub proof fn lemma_prefix_trans(a: Seq<u8>, b: Seq<u8>, c: Seq<u8>)
     requires is_prefix_of(a, b), is_prefix_of(b, c),
     ensures is_prefix_of(a, c),
-{ assert(c.subrange(0, a.len() as int) =~= b.subrange(0, a.len() as int)); }
+{ reveal(is_prefix_of); assert(c.subrange(0, a.len() as int) =~= b.subrange(0, a.len() as int)); }
 // all cumulative prefixes of a left-nested nine-fold concatenation are prefixes of the whole
 pub proof fn lemma_prefix_chain(c: Seq<u8>, x1: Seq<u8>, x2: Seq<u8>, x3: Seq<u8>, x4: Seq<u8>, x5: Seq<u8>, x6: Seq<u8>, x7: Seq<u8>, x8: Seq<u8>, x9: Seq<u8>)
     requires c == Seq::<u8>::empty() + x1 + x2 + x3 + x4 + x5 + x6 + x7 + x8 + x9,
     ensures ({ let p0 = Seq::<u8>::empty(); let p1 = p0 + x1; let p2 = p1 + x2; let p3 = p2 + x3; let p4 = p3 + x4; let p5 = p4 + x5; let p6 = p5 + x6; let p7 = p6 + x7; let p8 = p7 + x8;
         is_prefix_of(p1, c) && is_prefix_of(p2, c) && is_prefix_of(p3, c) && is_prefix_of(p4, c) && is_prefix_of(p5, c) && is_prefix_of(p6, c) && is_prefix_of(p7, c) && is_prefix_of(p8, c) && is_prefix_of(c, c) }),
 {
+    reveal(is_prefix_of);
+    reveal(is_prefix_of);
+    reveal(is_prefix_of);
     let p0 = Seq::<u8>::empty(); let p1 = p0 + x1; let p2 = p1 + x2; let p3 = p2 + x3; let p4 = p3 + x4; let p5 = p4 + x5; let p6 = p5 + x6; let p7 = p6 + x7; let p8 = p7 + x8;
     assert(c.subrange(0, c.len() as int) =~= c);
     lemma_prefix_of_concat(p8, x9);
@@ -132,4 +139,60 @@ pub proof fn lemma_prefix_chain(c: Seq<u8>, x1: Seq<u8>, x2: Seq<u8>, x3: Seq<u8
     lemma_prefix_of_concat(p3, x4); lemma_prefix_trans(p3, p4, c);
     lemma_prefix_of_concat(p2, x3); lemma_prefix_trans(p2, p3, c);
     lemma_prefix_of_concat(p1, x2); lemma_prefix_trans(p1, p2, c);
+}
+
+// the nine chunks of the version-1 layout and their cumulative concatenations
+pub open spec fn layout_chunk(k: int, x1: Seq<u8>, x2: Seq<u8>, x3: Seq<u8>, x4: Seq<u8>, x5: Seq<u8>, x6: Seq<u8>, x7: Seq<u8>, x8: Seq<u8>, x9: Seq<u8>) -> Seq<u8> {
+    if k == 1 { x1 } else if k == 2 { x2 } else if k == 3 { x3 } else if k == 4 { x4 } else if k == 5 { x5 } else if k == 6 { x6 } else if k == 7 { x7 } else if k == 8 { x8 } else { x9 }
+}
+pub open spec fn layout_prefix(k: int, x1: Seq<u8>, x2: Seq<u8>, x3: Seq<u8>, x4: Seq<u8>, x5: Seq<u8>, x6: Seq<u8>, x7: Seq<u8>, x8: Seq<u8>, x9: Seq<u8>) -> Seq<u8>
+    decreases k
+{
+    if k <= 0 { Seq::empty() } else { layout_prefix(k - 1, x1, x2, x3, x4, x5, x6, x7, x8, x9) + layout_chunk(k, x1, x2, x3, x4, x5, x6, x7, x8, x9) }
+}
+pub proof fn lemma_layout_prefixes(c: Seq<u8>, x1: Seq<u8>, x2: Seq<u8>, x3: Seq<u8>, x4: Seq<u8>, x5: Seq<u8>, x6: Seq<u8>, x7: Seq<u8>, x8: Seq<u8>, x9: Seq<u8>)
+    requires c == Seq::<u8>::empty() + x1 + x2 + x3 + x4 + x5 + x6 + x7 + x8 + x9,
+    ensures
+        forall|k: int| 0 <= k <= 9 ==> is_prefix_of(#[trigger] layout_prefix(k, x1, x2, x3, x4, x5, x6, x7, x8, x9), c),
+        layout_prefix(9, x1, x2, x3, x4, x5, x6, x7, x8, x9) == c,
+        layout_prefix(2, x1, x2, x3, x4, x5, x6, x7, x8, x9) == Seq::<u8>::empty() + x1 + x2,
+        layout_prefix(3, x1, x2, x3, x4, x5, x6, x7, x8, x9) == Seq::<u8>::empty() + x1 + x2 + x3,
+{
+    reveal(is_prefix_of);
+    lemma_prefix_chain(c, x1, x2, x3, x4, x5, x6, x7, x8, x9);
+    reveal_with_fuel(layout_prefix, 10);
+    assert(c.subrange(0, 0) =~= Seq::<u8>::empty());
+}
+
+pub proof fn lemma_add_empty(a: Seq<u8>)
+    ensures a + Seq::<u8>::empty() == a, Seq::<u8>::empty() + a == a,
+{ assert(a + Seq::<u8>::empty() =~= a); assert(Seq::<u8>::empty() + a =~= a); }
+pub proof fn lemma_concat_assoc(a: Seq<u8>, b: Seq<u8>, c: Seq<u8>)
+    ensures a + (b + c) == (a + b) + c,
+{ assert(a + (b + c) =~= (a + b) + c); }
+// the canonical bytes as one left-nested concatenation of the nine chunks
+pub proof fn lemma_canonical_flat(cs: Seq<ClassInProgress>, strs: Seq<u8>)
+    ensures ({ let nn = cs.len() as int; let hb = hdr_bytes(header_of(cs, strs)); let cb = classes_bytes(cs, nn);
+        let mb = members_bytes(all_members(cs, nn)); let pb = members_bytes(all_by_params(cs, nn));
+        canonical(cs, strs) == Seq::<u8>::empty() + hb + zeros(pad_len(hb.len() as int)) + cb + zeros(pad_len(cb.len() as int))
+            + mb + zeros(pad_len(mb.len() as int)) + pb + zeros(pad_len(pb.len() as int)) + strs }),
+{
+    let nn = cs.len() as int; let hb = hdr_bytes(header_of(cs, strs)); let cb = classes_bytes(cs, nn);
+    let mb = members_bytes(all_members(cs, nn)); let pb = members_bytes(all_by_params(cs, nn));
+    assert(canonical(cs, strs) =~= Seq::<u8>::empty() + hb + zeros(pad_len(hb.len() as int)) + cb + zeros(pad_len(cb.len() as int))
+            + mb + zeros(pad_len(mb.len() as int)) + pb + zeros(pad_len(pb.len() as int)) + strs);
+}
+// writing the record of class i keeps the delivered bytes a prefix of the canonical bytes
+pub proof fn lemma_class_piece_prefix(p2: Seq<u8>, cs: Seq<ClassInProgress>, i: int, nn: int, canon: Seq<u8>)
+    requires 0 <= i < nn, is_prefix_of(p2 + classes_bytes(cs, nn), canon),
+    ensures
+        is_prefix_of((p2 + classes_bytes(cs, i)) + class_bytes(emitted_class(cs, i)), canon),
+        (p2 + classes_bytes(cs, i)) + class_bytes(emitted_class(cs, i)) == p2 + classes_bytes(cs, i + 1),
+{
+    let ck = class_bytes(emitted_class(cs, i));
+    lemma_classes_split(cs, i + 1, nn);
+    lemma_concat_assoc(p2, classes_bytes(cs, i), ck);
+    lemma_concat_assoc(p2, classes_bytes(cs, i + 1), classes_suffix(cs, i + 1, nn));
+    lemma_prefix_of_concat(p2 + classes_bytes(cs, i + 1), classes_suffix(cs, i + 1, nn));
+    lemma_prefix_trans(p2 + classes_bytes(cs, i + 1), p2 + classes_bytes(cs, nn), canon);
 }
